@@ -329,7 +329,7 @@ pub fn run(s: &mut Sink) {
         "strcmp": "all pairs of strings of length <= 3 over {0x01,0x7f,0x80,0xff}, NUL terminated; common prefixes of every length 0..=1100 and around 4096 and 65536 followed by every pair of tails of length <= 1; null pointers",
         "sqrti": format!("k^2, k^2-1, k^2+1 for every k < {kmax}; 2^n, 2^n-1, 2^n+1 for n < 64; 2^52 neighbourhood; u64::MAX neighbourhood"),
         "bpf_trace_printf": "each of the three printed arguments over {16^k, 16^k-1, 16^k+1, 2^n-1, 2^n|1, small values, u64::MAX}, others fixed; full product over an 8-value subset; stdout captured in a child process",
-        "rand": "all ordered pairs from {0,1,2,2^32,2^63,u64::MAX-1,u64::MAX} with min < max, 64 calls each",
+        "rand": "all ordered pairs (min < max, min = max, min > max) from {0,1,2,3, 2^k-1, 2^k, 2^k+1 for k in 7,8,15,16,31,32,33,52,53,63, u64::MAX-1, u64::MAX}, 64 calls each",
     }));
     s.meta.insert("bound".into(), json!("argument alphabets as listed; complete products"));
     s.meta.insert("rule".into(), json!("cases are enumerated products of the argument alphabets; non-trivial = every case (each is a distinct argument tuple compared with an independent function)"));
@@ -508,14 +508,19 @@ pub fn run(s: &mut Sink) {
     // rand
     let idx = g;
     if s.take(idx) {
-        let vals = [0u64, 1, 2, 1 << 32, 1 << 63, u64::MAX - 1, u64::MAX];
+        // both sides of every power of two that a narrower intermediate type could stop at; every
+        // ordered pair (the range claim applies when min < max, "never panics" to all of them)
+        let mut vals: Vec<u64> = vec![0, 1, 2, 3, u64::MAX - 1, u64::MAX];
+        for k in [7u32, 8, 15, 16, 31, 32, 33, 52, 53, 63] {
+            vals.extend([(1u64 << k) - 1, 1u64 << k, (1u64 << k) + 1]);
+        }
+        vals.sort();
+        vals.dedup();
         let mut n = 0;
-        for a in vals {
-            for b in vals {
-                if a < b {
-                    check_rand(s, a, b);
-                    n += 64;
-                }
+        for a in &vals {
+            for b in &vals {
+                check_rand(s, *a, *b);
+                n += 64;
             }
         }
         s.count("evaluations", n);
